@@ -440,6 +440,20 @@ def renderInlineReal (files : Files) (entry : Name) (kind : Kind) (data : List (
   (loadT .inlineU files entry kind (St.init data)).bind fun r =>
     (renderL .inlineU files (render .inlineU files fuel) .full r.1 r.2).map (·.1)
 
+mutual
+/-- resolved targets of the statically named includes in a stream, at any depth -/
+def targetsN : Node → List Name
+  | .text _ | .var _ | .call _ => []
+  | .elem _ b | .cond _ b | .loop _ _ b | .defn _ b | .matchT _ b | .inlined b => targetsL b
+  | .include (.static h) _ _ fb pos => (match resolve pos h with | some t => [t] | none => []) ++ targetsL fb
+  | .include (.dyn _) _ _ fb _ => targetsL fb
+termination_by structural n => n
+def targetsL : List Node → List Name
+  | [] => []
+  | n :: ns => targetsN n ++ targetsL ns
+termination_by structural l => l
+end
+
 /-! ## the hypotheses of the theorem as executable checks -/
 
 mutual
